@@ -130,17 +130,41 @@ def check(program: Program, run: Run) -> None:
     run.rule("R4 no attribute is read from a value whose declared class has a value-manufacturing __getattr__ unless that class defines the attribute (else a valid operand of another subclass yields a Field and a TypeError instead of SQL or a library exception)")
     run.rule("R3 set arithmetic exactness inherits C17 (hash/eq coherence of Table, Field collection)")
     n_ok = 0
+    def tail_delegates(f0: FuncInfo) -> list[FuncInfo]:
+        """private methods of the same class that f0 hands its work to in a return statement (`return self._where(x)`):
+        a public method split into a thin wrapper and a worker keeps its guards in the worker"""
+        out = []
+        if f0.cls is None or not f0.params:
+            return out
+        for n in ast.walk(f0.node):
+            if isinstance(n, ast.Return) and isinstance(n.value, ast.Call) and isinstance(n.value.func, ast.Attribute) \
+                    and isinstance(n.value.func.value, ast.Name) and n.value.func.value.id == f0.params[0] and n.value.func.attr.startswith("_"):
+                g0 = f0.cls.resolve(n.value.func.attr)
+                if g0 is not None and g0 not in out:
+                    out.append(g0)
+        return out
+
+    def select(guards_, attrs_, exc_, opt_):
+        cs = [g for g in guards_ if g["exc"] == exc_ and attrs_ <= g["attrs"]]
+        if opt_.get("else_branch"):
+            cs = [g for g in cs if g["else"]]
+        if opt_.get("in_handler"):
+            cs = [g for g in cs if g["handler"]]
+        if opt_.get("second"):
+            cs = cs[1:] if len(cs) > 1 else []
+        return cs
     for qual, attrs, exc, protects, opt in G:
         f = program.func(qual)   # vanished anchor -> AnalysisError
         guards = collect_guards(f)
         label = opt.get("label") or ",".join(sorted(attrs))
-        cands = [g for g in guards if g["exc"] == exc and attrs <= g["attrs"]]
-        if opt.get("else_branch"):
-            cands = [g for g in cands if g["else"]]
-        if opt.get("in_handler"):
-            cands = [g for g in cands if g["handler"]]
-        if opt.get("second"):
-            cands = cands[1:] if len(cands) > 1 else []
+        cands = select(guards, attrs, exc, opt)
+        if not cands:
+            for d_ in tail_delegates(f):
+                gd = collect_guards(d_)
+                cd = select(gd, attrs, exc, opt)
+                if cd:
+                    f, guards, cands = d_, gd, cd
+                    break
         subject = f"{qual}[{label}]->{exc}"
         if not cands:
             wrong_exc = [g for g in guards if attrs and attrs <= g["attrs"]]
